@@ -18,6 +18,27 @@ func init() {
 	engine.RegisterSignature("c15-int-literal-beyond-2p53", sigIntLiteral)
 	engine.RegisterSignature("c15-export-same-kind-different-type", sigExportTypes)
 	engine.RegisterSignature("c15-call-undefined-this-native", sigCallUndefinedThis)
+	engine.RegisterSignature("c15-set-readonly-name-silent", func(m *engine.Mismatch) bool {
+		// Set on a read-only global binding returns nil and stores nothing
+		switch m.Aux["name"] {
+		case "NaN", "undefined", "Infinity", "frozen", "getterOnly":
+			return strings.HasPrefix(m.Observed, "Set/Get=Set returned nil but Get gives ")
+		}
+		return false
+	})
+	engine.RegisterSignature("c15-promoted-field-depth-rule", func(m *engine.Mismatch) bool {
+		// struct{ TZMid{TZInner{X}}; TZOther{X} }: X resolves to the deeper TZInner.X (1) instead of TZOther.X (2)
+		if !strings.Contains(m.Aux["value"], "depth rule") {
+			return false
+		}
+		switch m.Aux["component"] {
+		case "read X":
+			return m.Observed == "read X=d:1"
+		case "write X":
+			return strings.Contains(m.Observed, "TZInner{X: 10") && strings.Contains(m.Observed, "TZOther{X: 2}")
+		}
+		return false
+	})
 	engine.RegisterSignature("c15-marshaljson-undefined-bytes", func(m *engine.Mismatch) bool {
 		// a function value (typeof x === "function"): MarshalJSON returns exactly the bytes "undefined"
 		return m.Aux["component"] == "MarshalJSON.valid" && m.Observed == "MarshalJSON.valid=neither: undefined"
